@@ -43,8 +43,13 @@ class Driver:
         self.calls = []             # recorded driver calls
         self.mods = {}
         self.yield_in_calls = yield_in_calls
+        self.override = {}          # (mod, func) -> python value to return once
+        self.percall = {}           # thread name -> {'out': outcome, 'ret': value, 'token': n} for its next call
 
     def outcome(self, mod, func):
+        pc = self.percall.get(threading.current_thread().name)
+        if pc is not None and 'out' in pc:
+            return 0.0, pc['out']
         key = f'{mod}.{func}'
         script = self.scripts.get(key) or self.scripts.get(f'*.{func}')
         k = self.counts.get(key, 0)
@@ -81,8 +86,10 @@ class Driver:
             time.sleep(dur)
         return out
 
-    @staticmethod
-    def _raise(out, what):
+    def _raise(self, out, what):
+        if out in ('tok', 'tok_same'):
+            pc = self.percall.get(threading.current_thread().name) or {}
+            raise HardwareError(f'hw tok{pc.get("token")}')
         if out == 'secop':
             raise HardwareError(f'hw failure in {what}')
         if out == 'secop2':
@@ -112,6 +119,12 @@ class Driver:
             return 'not a valid value \0'
         if out == 'inc':
             self.reg[modobj.name, pname] = self.reg[modobj.name, pname] + 1
+        if (modobj.name, 'read_' + pname) in self.override:
+            self.reg[modobj.name, pname] = self.override.pop((modobj.name, 'read_' + pname))
+        pc = self.percall.get(threading.current_thread().name)
+        if pc is not None and 'ret' in pc:
+            self.reg[modobj.name, pname] = pc['ret']
+            return pc['ret']
         return self.reg[modobj.name, pname]
 
     def write(self, modobj, pname, value):
@@ -132,6 +145,11 @@ class Driver:
         self.reg[modobj.name, pname] = value
         if out == 'none':
             return None
+        if (modobj.name, 'write_' + pname) in self.override:
+            value = self.reg[modobj.name, pname] = self.override.pop((modobj.name, 'write_' + pname))
+        pc = self.percall.get(threading.current_thread().name)
+        if pc is not None and 'ret' in pc:
+            value = self.reg[modobj.name, pname] = pc['ret']
         return value
 
     def _cur(self, modobj, pname):
